@@ -1243,12 +1243,11 @@ unaryexpr(struct scope *s)
 static struct expr *
 castexpr(struct scope *s)
 {
-	struct type *t, *ct;
+	struct type *t;
 	struct decl *d;
 	enum typequal tq;
 	struct expr *r, *e, **end, *toeval;
 
-	ct = NULL;
 	end = &r;
 	while (consume(TLPAREN)) {
 		tq = QUALNONE;
@@ -1278,16 +1277,15 @@ castexpr(struct scope *s)
 		e->toeval = toeval;
 		*end = e;
 		end = &e->base;
-		ct = t;
 	}
 	e = unaryexpr(s);
 
 done:
-	if (ct && ct != &typevoid && !(e->type->prop & PROPSCALAR))
-		error(&tok.loc, "cast operand must have scalar type");
 	*end = e;
 	for (e = r; e != *end; e = e->base) {
 		t = e->base->type;
+		if (e->type != &typevoid && !(t->prop & PROPSCALAR))
+			error(&tok.loc, "cast operand must have scalar type");
 		if (e->type->kind == TYPEPOINTER && t->prop & PROPFLOAT || e->type->prop & PROPFLOAT && t->kind == TYPEPOINTER)
 			error(&tok.loc, "cannot cast between pointer and floating types");
 	}
